@@ -59,7 +59,7 @@ func genC14(p *Plan, r *RNG) {
 		p.Cfg.PermTimeoutS = pr + 10
 	}
 	p.Cfg.ChanTimeoutS = r.PickInt([]int{0, 340, 600, 1200})
-	p.Cfg.AllocLifeS = r.PickInt([]int{0, 20, 60, 600, 1800, 3600})
+	p.Cfg.AllocLifeS = r.PickInt([]int{0, 20, 60, 600, 1800, 3600, 7200, 9000})
 	np := r.Range(1, 4)
 	if r.Chance(1, 10) {
 		np = 8
